@@ -71,17 +71,6 @@ def produced : List Op → List Wire
   | .make u _ :: os => ⟨u, 0⟩ :: produced os
   | .unpack u _ k :: os => (List.range k).map (fun i => ⟨u, i⟩) ++ produced os
 
-/-- the type at a selector path (outermost selector first) below a type -/
-def Ty.at : Ty → List Nat → Option Ty
-  | t, [] => some t
-  | .leaf _ _, _ :: _ => none
-  | .node _ cs, i :: s => match cs[i]? with
-    | some t => t.at s
-    | none => none
-
-/-- place id of the sub-place of `p` addressed by the selector path `s` (outermost first) -/
-def sub (p : PlaceId) (s : List Nat) : PlaceId := s.reverse ++ p
-
 def Ty.isLeaf : Ty → Bool
   | .leaf _ _ => true
   | .node _ _ => false
@@ -154,6 +143,31 @@ def PVal.at : PVal → List Nat → Option PVal
     | some q => q.at s
     | none => none
   | _, _ :: _ => none
+
+/-- reference semantics of a script on a variable of type `T` (no wires, no ops): assignments
+    overwrite the addressed component with the (shape-checked) value of an old wire; a read needs
+    the addressed component fully defined, yields its value and moves the non-copyable leaves out.
+    `RefRun T env0 n0 script pv vs`: from reference value `pv` the reads of `script` yield `vs`. -/
+inductive RefRun (T : Ty) (env0 : Env) (n0 : Nat) : List SOp → PVal → List Val → Prop
+  | nil (pv : PVal) : RefRun T env0 n0 [] pv []
+  | set {s : List Nat} {w : Wire} {t' : Ty} {v : Val} {rest : List SOp} {pv : PVal} {vs : List Val} :
+      T.at s = some t' → env0 w = some v → w.node < n0 → v.HasShape t' →
+      RefRun T env0 n0 rest (pv.modify (fun _ => embed t' v) s) vs →
+      RefRun T env0 n0 (.set s w :: rest) pv vs
+  | get {s : List Nat} {t' : Ty} {pv pv' : PVal} {v : Val} {rest : List SOp} {vs : List Val} :
+      T.at s = some t' → pv.at s = some pv' → pv'.total = some v →
+      RefRun T env0 n0 rest (pv.modify (moved t') s) vs →
+      RefRun T env0 n0 (.get s :: rest) pv (v :: vs)
+
+mutual
+/-- the never-assigned reference value -/
+def blank : Ty → PVal
+  | .leaf _ _ => .hole
+  | .node _ cs => .tup (blanks cs)
+def blanks : List Ty → List PVal
+  | [] => []
+  | t :: ts => blank t :: blanks ts
+end
 
 /-- helper for concrete examples: the call succeeded and its result satisfies `f` -/
 def okAnd {ε α : Type} (r : Except ε α) (f : α → Bool) : Bool :=
